@@ -29,5 +29,5 @@ MANIFEST = {
     'category': 'proof',
     'technique': 'contract-based verification: pyvc symbolic execution of _parse_bdspec per instance, recorded-callee execution of the real scattered-point evaluators and _BoundaryFunction, AST frame analysis of the operations; numeric run-time contracts as bounded stand-in',
     'text': 'Proved from the current source: the three scattered-point evaluators use coordinate array sdim-1-d for knot-vector axis d (1D-3D, no IndexError); _parse_bdspec maps the six names and all (axis, side) pairs exactly as documented and raises ValueError for everything else; _BoundaryFunction.eval/support insert/drop the fixed axis consistently between xyz arguments and zyx knot vectors; none of translate/scale/apply_matrix/rotate_2d/as_nurbs/as_vector/component selection/boundary/copy/outer_sum/outer_product/tensor_product/evaluation methods stores into self or an argument. On seeded random B-spline/NURBS functions (sdim 1-3, scalar/vector/matrix values, repeated knots, random weights) single-point, grid and scattered evaluation agree, Jacobians and Hessians equal central differences of the evaluated map in the documented slot order, NURBS = numerator/weight, boundary() is the face restriction, operations equal their formulas and leave operands bit-identical, arcs/circles/disks/annuli lie on exact circles (bounded).',
-    'note': 'value-level clauses bounded; frame analysis syntactic; 0-dimensional boundaries of 1D vector-valued functions are not supported by the library.',
+    'note': 'value-level clauses bounded; frame analysis syntactic; 0-dimensional boundaries of 1D vector-valued functions are not supported by the library. Bounded comparisons do not broadcast (a result of the wrong shape is a difference); supports restricted in some directions only; grids with one-point axes.',
 }
